@@ -270,4 +270,256 @@ theorem equiv_map_of_perm {m m' : Entries} (hp : m.Perm m') (hd : distinctKeys m
   · rw [keys_normEntries]; exact (distinctKeys_iff m).1 hd
   · rw [normEntries_eq_map, normEntries_eq_map]; exact hp.map _
 
+
+/-! ### bytes = rendering of the tree -/
+
+theorem renderKids_eq (cfg : EncCfg) : ∀ (ks : List Node), renderKids cfg ks = ks.flatMap (render cfg)
+  | [] => rfl
+  | k :: ks => by simp [renderKids, renderKids_eq cfg ks]
+
+theorem escapeChars_isEmpty (s : Str) : (escapeChars s).isEmpty = s.isEmpty := by
+  cases s with
+  | nil => rfl
+  | cons c r =>
+    rw [escapeChars_cons]
+    have := escOne_length_pos c
+    cases h : escOne c with
+    | nil => rw [h] at this; simp at this
+    | cons _ _ => rfl
+
+theorem escIf_isEmpty (cfg : EncCfg) (s : Str) : (escIf cfg s).isEmpty = s.isEmpty := by
+  unfold escIf; split
+  · exact escapeChars_isEmpty s
+  · rfl
+
+theorem escIf_true (cfg : EncCfg) : escIf cfg ['t', 'r', 'u', 'e'] = ['t', 'r', 'u', 'e'] := by
+  unfold escIf; split
+  · rw [escapeChars_flatMap]; decide
+  · rfl
+
+theorem escIf_false (cfg : EncCfg) :
+    escIf cfg ['f', 'a', 'l', 's', 'e'] = ['f', 'a', 'l', 's', 'e'] := by
+  unfold escIf; split
+  · rw [escapeChars_flatMap]; decide
+  · rfl
+
+theorem plainText_eq {cfg : EncCfg} {s : Str} (h : plainText cfg s = true) : escIf cfg s = s := by
+  unfold plainText at h; exact beq_iff_eq.1 h
+
+theorem attrText_eq (cfg : EncCfg) (k : Str) (v : Val) (hp : Plain cfg v = true) :
+    attrText cfg k v = (encAttr cfg k v).map (fun a => renderAttrs cfg [a]) := by
+  cases v with
+  | null => rfl
+  | list _ => rfl
+  | map _ => rfl
+  | str s => simp [attrText, encAttr, attrValue, Except.map, renderAttrs]
+  | num t =>
+    simp only [Plain, Bool.and_eq_true] at hp
+    simp [attrText, encAttr, attrValue, Except.map, renderAttrs, plainText_eq hp.2]
+  | bool b =>
+    cases b <;> simp [attrText, encAttr, attrValue, Except.map, renderAttrs, escIf_true, escIf_false]
+
+theorem attrsText_eq (cfg : EncCfg) : ∀ (kvs : Entries), PlainEntries cfg kvs = true →
+    attrsText cfg kvs = (encAttrs cfg kvs).map (renderAttrs cfg)
+  | [], _ => rfl
+  | (k, v) :: rest, hp => by
+      simp only [PlainEntries, Bool.and_eq_true] at hp
+      have ih := attrsText_eq cfg rest hp.2
+      simp only [attrsText, encAttrs]
+      split
+      · rw [attrText_eq cfg k v hp.1.2, ih]
+        cases encAttr cfg k v <;> cases encAttrs cfg rest <;> simp [Except.map, renderAttrs]
+      · exact ih
+
+/-- text written for the text-key value = the escaped `%v` text -/
+theorem textValue_eq (cfg : EncCfg) (k : Str) : ∀ (kvs : Entries) (tv : Val),
+    PlainEntries cfg kvs = true → k = cfg.textK → lookup k kvs = some tv →
+    textValue cfg tv = (fmtV tv).map (escIf cfg)
+  | [], _, _, _, h => by simp [lookup] at h
+  | (k', v) :: rest, tv, hp, hk, h => by
+      simp only [PlainEntries, Bool.and_eq_true] at hp
+      simp only [lookup] at h
+      split at h
+      · rename_i e
+        subst e
+        obtain rfl := Option.some.inj h
+        cases v with
+        | str s => rfl
+        | list _ => rfl
+        | map _ => rfl
+        | bool b => cases b <;> simp [textValue, fmtV, escIf_true, escIf_false]
+        | num t =>
+          simp only [Plain, Bool.and_eq_true] at hp
+          simp [textValue, fmtV, plainText_eq hp.1.2.2]
+        | null =>
+          have h1 := hp.1.1
+          simp only [nullTextOk, hk, decide_true, Bool.true_and, Bool.not_eq_true'] at h1
+          simp [textValue, fmtV, escIf, h1]
+      · exact textValue_eq cfg k rest tv hp.2 hk h
+
+
+mutual
+theorem encTree_ne_nil (cfg : EncCfg) : ∀ (key : Str) (v : Val) (ns : List Node),
+    encTree cfg key v = .ok ns → ns ≠ []
+  | key, .null, ns, h => by simp only [encTree, Except.ok.injEq] at h; subst h; simp
+  | key, .str s, ns, h => by simp only [encTree, Except.ok.injEq] at h; subst h; simp
+  | key, .bool b, ns, h => by
+      cases b <;> simp only [encTree, fmtV, Except.ok.injEq] at h <;> subst h <;> simp
+  | key, .num t, ns, h => by simp only [encTree, fmtV, Except.ok.injEq] at h; subst h; simp
+  | key, .list xs, ns, h => by
+      simp only [encTree] at h
+      split at h
+      · simp only [Except.ok.injEq] at h; subst h; simp
+      · rename_i hne
+        exact encMembers_ne_nil cfg key xs ns (by intro e; subst e; simp at hne) h
+  | key, .map vv, ns, h => by
+      simp only [encTree] at h
+      repeat' split at h
+      all_goals first
+        | (simp only [Except.ok.injEq] at h; subst h; simp)
+        | simp at h
+theorem encMembers_ne_nil (cfg : EncCfg) (key : Str) : ∀ (xs : List Val) (ns : List Node),
+    xs ≠ [] → encMembers cfg key xs = .ok ns → ns ≠ []
+  | [], _, hne, _ => absurd rfl hne
+  | x :: xs, ns, _, h => by
+      simp only [encMembers] at h
+      split at h
+      · simp at h
+      · rename_i a ha
+        split at h
+        · simp at h
+        · simp only [Except.ok.injEq] at h
+          subst h
+          have := encTree_ne_nil cfg key x a ha
+          simp [this]
+end
+
+theorem encElems_ne_nil (cfg : EncCfg) : ∀ (vv : Entries) (ns : List Node),
+    countAttrs cfg vv ≠ vv.length → lookup cfg.textK vv = none → encElems cfg vv = .ok ns → ns ≠ []
+  | [], _, h, _, _ => by simp [countAttrs] at h
+  | (k, v) :: rest, ns, hc, hl, h => by
+      simp only [lookup] at hl
+      split at hl
+      · simp at hl
+      · rename_i hk
+        have hk' : ¬ k = cfg.textK := fun e => hk e.symm
+        simp only [encElems, hk', decide_false, Bool.false_or] at h
+        by_cases ha : isAttrK cfg k = true
+        · simp only [ha, if_true] at h
+          refine encElems_ne_nil cfg rest ns ?_ hl h
+          simp only [countAttrs, List.filter_cons, ha, if_true, List.length_cons] at hc
+          simp only [countAttrs]
+          omega
+        · have ha2 : isAttrK cfg k = false := by simpa using ha
+          simp only [ha2, Bool.false_eq_true, if_false] at h
+          split at h
+          · simp at h
+          · rename_i a ha'
+            split at h
+            · simp at h
+            · simp only [Except.ok.injEq] at h
+              subst h
+              have := encTree_ne_nil cfg k v a ha'
+              simp [this]
+
+theorem flatMap_render_single (cfg : EncCfg) (n : Node) : [n].flatMap (render cfg) = render cfg n := by
+  simp
+
+mutual
+/-- the compact encoder's bytes are the rendering of the encoder's tree (and it fails exactly
+    when the tree builder fails) -/
+theorem marshalN_eq_render (cfg : EncCfg) : ∀ (key : Str) (v : Val), Plain cfg v = true →
+    marshalN cfg key v = (encTree cfg key v).map (fun ns => ns.flatMap (render cfg))
+  | key, .null, _ => by
+      simp [marshalN, encTree, Except.map, render, renderAttrs]
+  | key, .str s, _ => by
+      by_cases hs : s = []
+      · subst hs
+        have : escIf cfg [] = [] := by unfold escIf escapeChars; simp
+        simp [marshalN, encTree, Except.map, render, this, renderAttrs]
+      · have h1 : s.isEmpty = false := by cases s <;> simp_all
+        have h2 : (escIf cfg s).isEmpty = false := by rw [escIf_isEmpty]; exact h1
+        have h3 : (escIf cfg s).length > 0 := by
+          cases h : escIf cfg s with
+          | nil => rw [h] at h2; simp at h2
+          | cons _ _ => simp
+        have h4 : escIf cfg s ≠ [] := by intro e; rw [e] at h2; simp at h2
+        simp [marshalN, encTree, Except.map, render, renderKids, h1, h2, endOf, h3, h4, renderAttrs]
+  | key, .bool b, _ => by
+      cases b <;>
+        simp [marshalN, encTree, fmtV, Except.map, render, renderKids, endOf, renderAttrs,
+          escIf_true, escIf_false]
+  | key, .num t, hp => by
+      simp only [Plain, Bool.and_eq_true, Bool.not_eq_true'] at hp
+      have h3 : (numText t).length > 0 := by
+        cases h : numText t with
+        | nil => rw [h] at hp; simp at hp
+        | cons _ _ => simp
+      have h4 : numText t ≠ [] := by intro e; rw [e] at h3; simp at h3
+      simp [marshalN, encTree, fmtV, Except.map, render, renderKids, endOf, renderAttrs,
+        plainText_eq hp.2, h3, h4]
+  | key, .list xs, hp => by
+      simp only [Plain] at hp
+      simp only [marshalN, encTree]
+      split
+      · simp [Except.map, render, renderAttrs]
+      · exact marshalMembers_eq_render cfg key xs hp
+  | key, .map vv, hp => by
+      simp only [Plain] at hp
+      simp only [marshalN, encTree, attrsText_eq cfg vv hp]
+      cases hA : encAttrs cfg vv with
+      | error e => rfl
+      | ok attrs =>
+        simp only [Except.map]
+        by_cases hn : countAttrs cfg vv = vv.length
+        · simp only [hn, if_true, flatMap_render_single, render, List.isEmpty_nil, endOf]
+          simp
+        · simp only [hn, if_false]
+          cases hl : lookup cfg.textK vv with
+          | some tv =>
+            simp only [textValue_eq cfg cfg.textK vv tv hp rfl hl]
+            cases hf : fmtV tv with
+            | none => rfl
+            | some txt =>
+              simp only [Option.map_some]
+              by_cases hn1 : countAttrs cfg vv + 1 = vv.length
+              · simp only [hn1, if_true, flatMap_render_single, render, renderKids, endOf]
+                simp
+              · simp only [hn1, if_false, marshalElems_eq_render cfg vv hp]
+                cases hE : encElems cfg vv with
+                | error e => rfl
+                | ok kids =>
+                  simp only [Except.map, flatMap_render_single, render, renderKids, endOf,
+                    renderKids_eq]
+                  simp
+          | none =>
+            simp only [marshalElems_eq_render cfg vv hp]
+            cases hE : encElems cfg vv with
+            | error e => rfl
+            | ok kids =>
+              have hne := encElems_ne_nil cfg vv kids hn hl hE
+              have hne' : kids.isEmpty = false := by cases kids <;> simp_all
+              simp only [Except.map, flatMap_render_single, render, renderKids_eq, endOf, hne']
+              simp
+theorem marshalMembers_eq_render (cfg : EncCfg) (key : Str) : ∀ (xs : List Val),
+    PlainList cfg xs = true →
+    marshalMembers cfg key xs = (encMembers cfg key xs).map (fun ns => ns.flatMap (render cfg))
+  | [], _ => rfl
+  | x :: xs, hp => by
+      simp only [PlainList, Bool.and_eq_true] at hp
+      simp only [marshalMembers, encMembers, marshalN_eq_render cfg key x hp.1,
+        marshalMembers_eq_render cfg key xs hp.2]
+      cases encTree cfg key x <;> cases encMembers cfg key xs <;> simp [Except.map]
+theorem marshalElems_eq_render (cfg : EncCfg) : ∀ (kvs : Entries), PlainEntries cfg kvs = true →
+    marshalElems cfg kvs = (encElems cfg kvs).map (fun ns => ns.flatMap (render cfg))
+  | [], _ => rfl
+  | (k, v) :: rest, hp => by
+      simp only [PlainEntries, Bool.and_eq_true] at hp
+      simp only [marshalElems, encElems]
+      split
+      · exact marshalElems_eq_render cfg rest hp.2
+      · simp only [marshalN_eq_render cfg k v hp.1.2, marshalElems_eq_render cfg rest hp.2]
+        cases encTree cfg k v <;> cases encElems cfg rest <;> simp [Except.map]
+end
+
 end Mxj.Enc
